@@ -52,6 +52,10 @@ def main():
         sh(f"git -C {REPO} worktree remove --force {wt}")
         shutil.rmtree(wt, ignore_errors=True)
     results = {}
+    # the evidence files describe the UNCHANGED tree: keep them aside while the checks run against the patched one
+    ev_backup = tempfile.mkdtemp(prefix="seed_ev_")
+    for f in os.listdir(os.path.join(ROOT, "evidence")):
+        shutil.copy(os.path.join(ROOT, "evidence", f), os.path.join(ev_backup, f))
     if ok:
         st, o = sh(f"git -C {REPO} status --porcelain")
         assert o.strip() == "", "/repo is not clean: " + o
@@ -70,6 +74,9 @@ def main():
             sh(f"git -C {REPO} checkout -- .")
             st, o = sh(f"git -C {REPO} status --porcelain")
             assert o.strip() == "", "/repo not restored: " + o
+            for f in os.listdir(ev_backup):
+                shutil.copy(os.path.join(ev_backup, f), os.path.join(ROOT, "evidence", f))
+    shutil.rmtree(ev_backup, ignore_errors=True)
     meta["checks"] = results
     meta["detected_by"] = [p for p, r in results.items() if r["exit"] == 1]
     dst = os.path.join(ROOT, "seeded", name)
